@@ -331,6 +331,8 @@ type c05DocGen struct {
 	rt      *rapid.T
 	plain   bool // only plain (must-be-accepted) content
 	p5      bool // request values: a field is absent only when optional and unconstrained
+	focus   bool // one field of the object is hostile (boundary / ill-typed / absent ...), the rest is plain:
+	// a must-fail value is only observable as a wrong acceptance when everything else is acceptable
 	hostile int  // percentage of nested elements replaced by an arbitrary value
 }
 
@@ -597,6 +599,23 @@ func (g *c05DocGen) object(fs []c05Fld, depth int) c05JV {
 }
 
 func (g *c05DocGen) members(fs []c05Fld, depth int, m *[]c05KV) {
+	rt := g.rt
+	if g.focus {
+		// exactly one field of this object gets the hostile treatment
+		target := rapid.IntRange(0, len(fs)-1).Draw(rt, "focus")
+		g.focus = false
+		for i := range fs {
+			g.plain = i != target
+			g.focused = i == target
+			g.members(fs[i:i+1:i+1], depth, m, i)
+		}
+		g.plain, g.focused, g.focus = false, false, true
+		return
+	}
+	g.membersAt(fs, depth, m, 0)
+}
+
+func (g *c05DocGen) membersAt(fs []c05Fld, depth int, m *[]c05KV, base int) {
 	rt := g.rt
 	for i := range fs {
 		f := &fs[i]
